@@ -409,6 +409,13 @@ func (ipcp *IPCPStateMachine) processConfigureOptions(opts []LCPOption) (ack, na
 				continue
 			}
 
+			// No address has been assigned to this session: there is nothing
+			// the peer could legitimately claim (same answer as for 0.0.0.0)
+			if ipcp.config.PeerIP == nil {
+				reject = append(reject, opt)
+				continue
+			}
+
 			// Accept the requested IP
 			ipcp.negotiated.PeerIP = requestedIP
 			ack = append(ack, opt)
